@@ -58,6 +58,9 @@ function planH5 (rng, prefix0) {
   let R = `__datadog_${prefix}_${idx}`
   let lookalikeOnly = false
   if (variant >= 4 && rng.chance(1, 2)) { R = `__datadog_${prefix.replace(/[^A-Za-z0-9_$]/g, '_')}_${idx}`; lookalikeOnly = true }
+  // the reserved prefix of the *other* rewriter instance of the process (only meaningful with preJob)
+  let foreign = false
+  if (variant === 3) { R = `__datadog_other_${idx}`; lookalikeOnly = true; foreign = true }
   const strict = rng.chance(1, 2)
   // the same identifier name spelled with a unicode escape (the parser turns it into the plain name)
   let spelled = R
@@ -70,8 +73,8 @@ function planH5 (rng, prefix0) {
   const text = `${strict ? "'use strict';\n" : ''}${body}\nmodule.exports = { f, after: typeof after === 'function' ? after : null };\n`
   // an earlier rewrite of the same process used another prefix (history: the refusal must not
   // depend on which configuration was used first)
-  const preJob = rng.chance(1, 2)
-  return { mode: 'h5', placement: lookalikeOnly ? placement + '(normalised-lookalike)' : placement, template: placement, R, strict, text, preJob, prefix }
+  const preJob = foreign || rng.chance(1, 2)
+  return { mode: 'h5', placement: foreign ? placement + '(prefix-of-the-other-rewriter)' : lookalikeOnly ? placement + '(normalised-lookalike)' : placement, template: placement, R, strict, text, preJob, prefix }
 }
 
 function runOnce (code, file) {
